@@ -930,3 +930,39 @@ def run(ctx: Ctx):
     ctx.extra["disagreements_checked"] = ctx.obligations
     ctx.extra["items_parsed"] = {"struct": len(c.structs), "enum": len(c.enums), "type": len(c.types),
                                  "impl": len(c.impls), "tokens": c.rf.n_tokens}
+
+
+def _generator_clauses(ctx: Ctx):
+    """Two clauses about the rust plugin source that the committed lib.rs cannot show (they only matter for
+    metamodels that re-declare an inherited property differently / carry both `deprecated` and `proposed`):
+    the plugin's flattening gives the nearest declaration, and generate_extras emits the feature gate for every
+    proposed item whatever its other marks.  Both helpers are constant-folded (E5) on synthetic inputs."""
+    from .. import flatten
+    from ..genlint import Index
+    idx = Index(ctx.src, dirs=("generator/plugins/rust",))
+    spec, structs = flatten.lattice()
+    for sname in ("A", "B", "C"):
+        exp = flatten.expected(structs, sname)
+        got = flatten.fold_rust(idx, spec, structs, sname)
+        for k in sorted(set(exp) | set(got)):
+            ctx.check(exp.get(k) == got.get(k), "generator-flatten-nearest-wins", f"struct={sname} prop={k}",
+                      f"rust_commons.get_extended_properties gives {sname}.{k} the declaration of {got.get(k)!r}, the "
+                      f"nearest one is {exp.get(k)!r}: the field would get the base structure's type / optionality",
+                      flatten.P_RC, None)
+    ex = flatten.fold_rust_extras(idx)
+    gate = '#[cfg(feature = "proposed")]'
+    for (dep, prop), lines in sorted(ex.items()):
+        ctx.check((gate in lines) == prop, "generator-gate-iff-proposed", f"deprecated={dep} proposed={prop}",
+                  f"generate_extras(deprecated={dep}, proposed={prop}) folds to {lines}: the feature gate must be present "
+                  "exactly when the item is proposed", flatten.P_RC, None,
+                  sample={"deprecated": dep, "proposed": prop, "attributes": lines})
+        ctx.check(("#[deprecated]" in lines) == dep, "generator-gate-iff-proposed", f"deprecated={dep} proposed={prop}:deprecated",
+                  f"generate_extras(deprecated={dep}, proposed={prop}) folds to {lines}", flatten.P_RC, None)
+
+
+_run_c07 = run
+
+
+def run(ctx: Ctx):  # noqa: F811
+    _run_c07(ctx)
+    _generator_clauses(ctx)
